@@ -168,6 +168,19 @@ def e_discriminants():
                   Variant(I('Z'), 'unit', [], [], ('1', 1)), Variant(I('W'), 'unit', [])]
             yield Item('enum', I('A'), tparam(), [], False,
                        [Attr('repr', repr_=('idents', ids)), dw(['PartialOrd', 'PartialEq', 'Ord', 'Eq'], gen_T())], vs)
+    # the representation spread over two `#[repr]` attributes, in either order, next to other attributes
+    for r in ('u8', 'i32', 'isize'):
+        for first, second in (([I(r)], [I('C')]), ([I('C')], [I(r)]), ([I('C')], [I('C')])):
+            if first == second and r != 'u8':
+                continue
+            vs = [Variant(I('X'), 'tuple', [Field(0, 'T', [])], [], ('3', 3) if first != second else None),
+                  Variant(I('Y'), 'named', [Field(I('a'), 'T', [])]),
+                  Variant(I('Z'), 'unit', [], [], ('1', 1) if first != second else None)]
+            for traits in (['PartialOrd', 'PartialEq'], ['PartialOrd', 'PartialEq', 'Ord', 'Eq', 'Hash', 'Clone']):
+                yield Item('enum', I('A'), tparam(), [], False,
+                           [Attr('repr', repr_=('idents', first)), Attr('repr', repr_=('idents', second)), dw(traits, gen_T())], vs)
+                yield Item('enum', I('A'), tparam(), [], False,
+                           [Attr('repr', repr_=('idents', first)), dw(traits, gen_T()), Attr('repr', repr_=('idents', second))], vs)
     # discriminants that only fit the declared representation (a narrower read or cast mis-orders them)
     big = {'u64': [('1 << 40', 1 << 40), ('u64::MAX', (1 << 64) - 1), ('5', 5)],
            'i64': [('i64::MIN', -(1 << 63)), ('-1', -1), ('1 << 40', 1 << 40)],
